@@ -85,8 +85,8 @@ def semDesc (W : Pol.World) : Desc → Bool
 (b) scripts with a spending path that needs a height-based and a time-based lock of the same
 kind ("a combination of timelocks").  A *spending path* chooses one branch at every `or`, both at
 every `and`, exactly `k` children at a `thresh`; its *lock signature* says which of the four lock
-kinds occur on it.  Signatures are 4-bit masks; sets of signatures are duplicate-free lists, so
-wide thresholds stay polynomial. -/
+kinds occur on it (`LockSig`); sets of signatures are duplicate-free lists of at most 16
+entries, so wide thresholds stay polynomial. -/
 
 mutual
 /-- the script mentions a bare key hash -/
@@ -102,36 +102,57 @@ def mentionsRawL : MsList → Bool
   | .cons x xs => mentionsRaw x || mentionsRawL xs
 end
 
-def SIG_OLDER_HEIGHT : Nat := 1
-def SIG_OLDER_TIME : Nat := 2
-def SIG_AFTER_HEIGHT : Nat := 4
-def SIG_AFTER_TIME : Nat := 8
+/-- which of the four lock kinds occur on a spending path -/
+structure LockSig where
+  olderHeight : Bool := false
+  olderTime : Bool := false
+  afterHeight : Bool := false
+  afterTime : Bool := false
+  deriving DecidableEq, Repr
+
+/-- the locks of two pieces of one path -/
+def LockSig.or (a b : LockSig) : LockSig :=
+  ⟨a.olderHeight || b.olderHeight, a.olderTime || b.olderTime,
+   a.afterHeight || b.afterHeight, a.afterTime || b.afterTime⟩
 
 /-- a path with this signature can never be used: it needs both units of one lock kind -/
-def mixedSig (m : Nat) : Bool :=
-  (m % 2 == 1 && m / 2 % 2 == 1) || (m / 4 % 2 == 1 && m / 8 % 2 == 1)
+def LockSig.mixed (m : LockSig) : Bool :=
+  (m.olderHeight && m.olderTime) || (m.afterHeight && m.afterTime)
+
+/-- the 16 signatures -/
+def LockSig.all : List LockSig :=
+  [false, true].flatMap fun a => [false, true].flatMap fun b => [false, true].flatMap fun c =>
+    [false, true].map fun d => ⟨a, b, c, d⟩
+
+/-- a set of signatures as a duplicate-free list (at most 16 entries) -/
+def normSigs (l : List LockSig) : List LockSig := LockSig.all.filter (fun x => l.contains x)
 
 /-- signatures of paths that use a path of the first AND a path of the second -/
-def crossSigs (a b : List Nat) : List Nat :=
-  (a.flatMap fun x => b.map fun y => x ||| y).eraseDups
+def crossSigs (a b : List LockSig) : List LockSig :=
+  normSigs (a.flatMap fun x => b.map fun y => x.or y)
 
-def unionSigs (a b : List Nat) : List Nat := (a ++ b).eraseDups
+def unionSigs (a b : List LockSig) : List LockSig := normSigs (a ++ b)
 
 /-- one more child `s` for the table "signatures reachable by choosing exactly j of the children
 seen so far", `j = 0 … k` (`prev` = the entry for `j - 1` before this child) -/
-def chooseStep (s : List Nat) : List Nat → List (List Nat) → List (List Nat)
+def chooseStep (s : List LockSig) : List LockSig → List (List LockSig) → List (List LockSig)
   | _, [] => []
   | prev, cur :: rest => unionSigs cur (crossSigs prev s) :: chooseStep s cur rest
+
+/-- process one child: entry 0 stays, entry j+1 gains "entry j and this child" -/
+def chooseChild (s : List LockSig) : List (List LockSig) → List (List LockSig)
+  | [] => []
+  | t0 :: rest => t0 :: chooseStep s t0 rest
 
 mutual
 /-- lock signatures of the spending paths.  `viaUnsat = true`: purely structural paths (a `0`
 can be "chosen"); `false`: only paths that some assets can satisfy. -/
-def lockSigs (viaUnsat : Bool) : Ms → List Nat
-  | .tru => [0]
-  | .fls => if viaUnsat then [0] else []
-  | .pkK _ | .pkH _ | .rawPkH _ | .hash _ _ => [0]
-  | .after n => [if Pol.absIsHeight n then SIG_AFTER_HEIGHT else SIG_AFTER_TIME]
-  | .older n => [if Pol.relIsTime n then SIG_OLDER_TIME else SIG_OLDER_HEIGHT]
+def lockSigs (viaUnsat : Bool) : Ms → List LockSig
+  | .tru => [{}]
+  | .fls => if viaUnsat then [{}] else []
+  | .pkK _ | .pkH _ | .rawPkH _ | .hash _ _ => [{}]
+  | .after n => [if Pol.absIsHeight n then { afterHeight := true } else { afterTime := true }]
+  | .older n => [if Pol.relIsTime n then { olderTime := true } else { olderHeight := true }]
   | .alt x | .swap x | .check x | .dupIf x | .verify x | .nonZero x | .zeroNotEqual x =>
     lockSigs viaUnsat x
   | .andV x y | .andB x y => crossSigs (lockSigs viaUnsat x) (lockSigs viaUnsat y)
@@ -139,20 +160,16 @@ def lockSigs (viaUnsat : Bool) : Ms → List Nat
     unionSigs (crossSigs (lockSigs viaUnsat x) (lockSigs viaUnsat y)) (lockSigs viaUnsat z)
   | .orB x z | .orD x z | .orC x z | .orI x z => unionSigs (lockSigs viaUnsat x) (lockSigs viaUnsat z)
   | .thresh k xs =>
-    -- table for j = 0 … k, start: choosing 0 of no children
-    ((chooseSigs viaUnsat xs ([0] :: List.replicate k [])).getLast?).getD []
+    -- table for j = 0 … k, start: choosing 0 of no children; answer: the entry for j = k
+    ((chooseSigs viaUnsat xs ([{}] :: List.replicate k [])).getLast?).getD []
   | .multi k ks | .sortedMulti k ks | .multiA k ks | .sortedMultiA k ks =>
-    if k ≤ ks.length then [0] else []
-def chooseSigs (viaUnsat : Bool) : MsList → List (List Nat) → List (List Nat)
+    if k ≤ ks.length then [{}] else []
+def chooseSigs (viaUnsat : Bool) : MsList → List (List LockSig) → List (List LockSig)
   | .nil, table => table
-  | .cons x xs, table =>
-    chooseSigs viaUnsat xs
-      (match table with
-       | [] => []
-       | t0 :: rest => t0 :: chooseStep (lockSigs viaUnsat x) t0 rest)
+  | .cons x xs, table => chooseSigs viaUnsat xs (chooseChild (lockSigs viaUnsat x) table)
 end
 
 /-- some spending path mixes height and time -/
-def hasMixedPath (viaUnsat : Bool) (ms : Ms) : Bool := (lockSigs viaUnsat ms).any mixedSig
+def hasMixedPath (viaUnsat : Bool) (ms : Ms) : Bool := (lockSigs viaUnsat ms).any LockSig.mixed
 
 end MsVerif.MsSem
